@@ -61,6 +61,7 @@ Section Defaults.
     map_err (with_span (i_span (einfo e)))
       (match e with
        | ELit i l => from_value i l
+       | ENeg i l => from_value i l        (* -1 before another item means the literal -1 *)
        | EGroup _ g => default_from_expr g
        | _ => Err (unexpected_expr_type e)
        end).
@@ -105,6 +106,7 @@ Fixpoint expr_hook (e : expr) : hook :=
   | ELit _ (LChar _) => HChar
   | ELit _ _ => HLit
   | EGroup _ g => expr_hook g
+  | ENeg _ _ => HLit
   | _ => HExpr
   end.
 
